@@ -49,6 +49,7 @@ CONTRACTS.append(
 # json_schema_property_to_param (cdd/json_schema/utils/parse_utils.py): JSON-schema keywords that are folded into the
 # type never survive as keys of the returned entry -- `pattern` (-> Literal[...]) , `type` (-> typ), `description` (-> doc).
 MJ = "cdd.json_schema.utils.parse_utils"
+from cdd.json_schema.utils.parse_utils import json_type2typ as _JSON_TYPE2TYP  # the real table of the tree under check
 JENTRY = {"type?": "str", "description?": "str", "pattern?": "str", "default?": "opaque", "typ?": "str", "doc?": "str"}
 
 CONTRACTS.append(
@@ -65,6 +66,10 @@ CONTRACTS.append(
             "implies(old(present(_param, 'description')), present(_param, 'doc'))",
             # a non-empty pattern is always turned into a Literal type and removed
             "implies(old(present(_param, 'pattern')) and old(field(_param, 'pattern')) != '', not present(_param, 'pattern'))",
+            # a property that states its JSON type gets the Python type the table maps it to -- whatever the parameter is
+            # called (the `*kwargs` fallback type is a fallback only)
+            "implies(old(present(_param, 'type')) and old(field(_param, 'type')) != '' and not (old(present(_param, 'pattern')) and old(field(_param, 'pattern')) != ''),"
+            " present(_param, 'typ') and (%s))" % " or ".join("field(_param, 'typ') == %r" % v for v in sorted(set(_JSON_TYPE2TYP.values()))),
         ],
     )
 )
